@@ -167,6 +167,10 @@ class C12Dst(DstWorld):
         if m["eof_seen"] and self.c["mode"] == "unack" and st.D.h.states.step.name == "RECV_FILE_DATA_WITH_CHECK_LIMIT_HANDLING" and m["cancel"] is None:
             # the sender cancels after its EOF (no error) while the receiver still waits for late data
             evs.append(("eof", self.c["size"], "CANCEL_REQUEST_RECEIVED", 1))
+        if m["eof_seen"] and self.c["mode"] == "ack" and st.D.h.states.step.name in ("WAITING_FOR_MISSING_DATA", "WAITING_FOR_METADATA") and m["cancel"] is None \
+                and m["causes"] == 0:
+            # the sender's user cancels during the retransmission phase (sender in WAITING_FOR_EOF_ACK / RETRANSMITTING / WAITING_FOR_FINISHED)
+            evs.append(("eof", self.c["size"], "CANCEL_REQUEST_RECEIVED", 1))
         if st.D.h.states.step.name == "WAITING_FOR_FINISHED_ACK":
             evs.append(("ackfin",))
         if m["ncancel"] < 2:
@@ -190,9 +194,12 @@ class C12Dst(DstWorld):
         if ev[0] in ("fd", "eof") and not self.exc(out) and st.D.h.state.name == "BUSY":
             m["active"] = True
         if ev[0] == "eof" and not self.exc(out):
-            if self.inds(out, "eof_recv") or out["pre_step"] in ("RECEIVING_FILE_DATA", "IDLE", "WAITING_FOR_METADATA", "RECV_FILE_DATA_WITH_CHECK_LIMIT_HANDLING"):
+            if self.inds(out, "eof_recv") or out["pre_step"] in ("RECEIVING_FILE_DATA", "IDLE", "WAITING_FOR_METADATA", "RECV_FILE_DATA_WITH_CHECK_LIMIT_HANDLING",
+                                                                   "WAITING_FOR_MISSING_DATA"):
                 m["eof_seen"] = True
-                if ev[2] != "NO_ERROR" and out["pre_step"] in ("RECEIVING_FILE_DATA", "RECV_FILE_DATA_WITH_CHECK_LIMIT_HANDLING"):
+                if ev[2] != "NO_ERROR" and out["pre_step"] in ("RECEIVING_FILE_DATA", "RECV_FILE_DATA_WITH_CHECK_LIMIT_HANDLING", "IDLE", "WAITING_FOR_METADATA",
+                                                                   "WAITING_FOR_MISSING_DATA"):
+                    # IDLE / WAITING_FOR_METADATA: acknowledged mode, the Metadata PDU was lost or is late - an EOF (cancel) is one all the same
                     m["causes"] = min(2, m["causes"] + 1)
                     if m["cancel"] is None:
                         m["cancel"] = ["eof", ev[2]]
@@ -210,7 +217,8 @@ class C12Dst(DstWorld):
         if fins:
             m["done"] = True
             m["due"] = None
-            m["fin"] = fins[0]
+            if m["fin"] is None:
+                m["fin"] = fins[0]
         if self.idle(st) and m["active"]:
             m["done"] = True
         st.m = m
@@ -242,6 +250,14 @@ class C12Dst(DstWorld):
             return v
         fins = self.inds(out, "finished")
         finpdus = self.emitted(out, "FIN")
+        pf = pre.get("fin")
+        if pre["done"] and pf and pf["deliv"] == "DATA_COMPLETE" and pf["cond"] == "NO_ERROR":
+            # the delivery was reported complete and successful: whatever happens afterwards (cancel request while the Finished PDU
+            # awaits its ACK, positive-ACK limit), the file is not an incomplete one and must not be discarded
+            data = core.read_file(self.dest_path)
+            if data != st.src:
+                bad("C12.complete_file_discarded", f"the file was delivered completely (Transaction-Finished NO_ERROR / DATA_COMPLETE) but is now "
+                                                   f"{'absent' if data is None else data.hex()} (disposition {c['disposition']})", disposition=c["disposition"])
         cancel = pre["cancel"] or (m["cancel"] if ev[0] == "eof" else None)
         if pre["due"] is not None and m["due"] is not None and m["due"] <= 0 and not fins:
             bad("C12.not_finished", f"transaction cancelled by {pre['cancel']} but no Transaction-Finished indication followed", by=pre["cancel"][0])
